@@ -35,6 +35,7 @@ type Opts struct {
 	NamedRecursion   bool // cycles that only go through named maps / slices: type Tree map[string]Tree (analysis-only properties)
 	DataIgnoreUnions bool // gomacro-data:"ignore" may sit on a directly union-typed field (C15)
 	ContainerMembers bool // union members that are named slices / maps of unions, outside the analysed file (C02)
+	StdNamedPkgs     bool // an imported user package may be named like a standard one (time)
 	SameNamePromoted bool // a flattened embedded struct may have a field with the Go name of an outer field, under another JSON key
 	EmbedNamed       bool // structs may embed an exported named non-struct type (a regular field for encoding/json)
 	ShortModule      bool // the analysed package may have an import path of one or two elements (module at the root)
